@@ -816,6 +816,8 @@ def rule_no_size_thresholds(ctx, rid, modules, what):
                 continue
             n_cmp += 1
             sides = [n.left] + list(n.comparators)
+            if any(w in norm(n) for w in ("version_info", "hexversion", "python_version", "api_version")):
+                continue        # which interpreter runs the code is not an input of the property
             for sd in sides:
                 v = _numeric_constant(prog, f, sd)
                 if v is None:
@@ -878,4 +880,42 @@ def rule_no_value_identity(ctx, rid, modules, what):
                        "(integers up to 256 are shared, 257 is not)" % norm(n)[:60])
         if not bad:
             r.ok(site(f), "%d identity tests, each against a fixed object" % n_is)
+    return r
+
+
+def rule_scope_in_force(ctx, rid="R2.18"):
+    """The scopes in force while a subschema's keywords run are that subschema's own: decided by running the class create() builds --
+    the draft's own keyword functions plus a probe keyword -- inside sa/tokeval.py, whose generators are lazy (a branch's error
+    iterator that is advanced once and put aside keeps the scopes it entered, exactly as in CPython).  Every applicator of every
+    draft is handed three failing subschemas carrying ids of their own, over an array, an object and a number."""
+    prog = ctx.prog
+    disp = find_method(prog, "validators.create.Validator", "iter_errors") if "validators.create.Validator.iter_errors" in prog.funcs else None
+    r = ctx.rule(rid, "while the keywords of a subschema run, the resolution scopes entered are exactly that subschema's own id (probe keyword through every "
+                      "applicator of every draft; lazy generators)", floor=4)
+    if "_scope_probe" not in ctx.extra:
+        from .valsem import scope_probe_eval
+        res = {}
+        for d in sorted(prog.tables.drafts):
+            try:
+                res[d] = scope_probe_eval(prog, d)
+            except RecursionError:
+                res[d] = None
+        ctx.extra["_scope_probe"] = res
+    for d, got in sorted(ctx.extra["_scope_probe"].items()):
+        where = "jsonschema/validators.py %s" % prog.tables.drafts[d].var
+        if got is None:
+            r.ok(where, "NOT DECIDED: outside the evaluated fragment")
+            r.note(where, "%s not decided for %s" % (rid, d))
+            continue
+        out, n = got
+        if not n:
+            r.ok(where, "NOT DECIDED: no probe call was reached (the dispatcher is outside the evaluated fragment)")
+            r.note(where, "%s not decided for %s" % (rid, d))
+            continue
+        bad = {k: v for k, v in out.items() if v}
+        if not bad:
+            r.ok(where, "%d probe calls under %d applicators: each saw exactly its own subschema's scope, none was left entered" % (n, len(out)))
+        for k, v in sorted(bad.items()):
+            f = prog.tables.drafts[d].table.get(k)
+            r.fail("%s|scope-in-force|%s" % (f.qual if f is not None else d, k), site(f) if f is not None else where, v)
     return r
